@@ -47,6 +47,10 @@ pub struct ImageSpec {
     pub comp_sector_align: bool,
     /// base for pattern ids of this layer
     pub id_base: u32,
+    /// free host clusters (refcount 0) appended behind the last used one and filled, like the
+    /// layout gaps, with recognisable garbage: what a reused or never-zeroed cluster would expose
+    #[serde(default)]
+    pub stale_tail: u8,
 }
 
 #[derive(Clone, Debug)]
@@ -87,6 +91,7 @@ impl ImageSpec {
             gap_every: 0,
             comp_sector_align: false,
             id_base: 0x4000_0000,
+            stale_tail: 0,
         }
     }
     pub fn guest_clusters(&self) -> u64 {
@@ -438,6 +443,18 @@ pub fn build(spec: &ImageSpec) -> Result<(Vec<u8>, Truth), String> {
         return Err("header does not fit the first cluster".into());
     }
     file[..hb.len()].copy_from_slice(&hb);
+    // garbage in every free cluster: the layout gaps and the tail
+    {
+        let mut stale = vec![0u8; cs as usize];
+        for g in &gaps {
+            pat::fill(&mut stale, Pat { id: spec.id_base + 0xfd, sparse: false }, g * cs);
+            file[(g * cs) as usize..((g + 1) * cs) as usize].copy_from_slice(&stale);
+        }
+        for k in 0..spec.stale_tail as u64 {
+            pat::fill(&mut stale, Pat { id: spec.id_base + 0xfd, sparse: false }, (total + k) * cs);
+            file.extend_from_slice(&stale);
+        }
+    }
     // re-parse to fill in the computed offsets
     h = parse_header(&file)?;
     Ok((
